@@ -239,7 +239,7 @@ def generated_mazes(ctx, n):
         ctx.count("generator_mazes_all_pairs")
 
 
-def solved_constructors(ctx, n):
+def solved_constructors(ctx, n, out=None):
     """the property's second observation point: SolvedMaze.from_targeted_lattice_maze(t).solution — for a plain TargetedLatticeMaze, for
     a SolvedMaze that already carries a legal but LONGER walk between its endpoints (paths come from users, from_tokens, from_pixels:
     nothing makes a stored one shortest), for a SolvedMaze carrying the shortest path, and for targeted mazes whose endpoints are not
@@ -277,12 +277,21 @@ def solved_constructors(ctx, n):
                 t = mk()
             except Exception as ex:
                 continue
+            picks = []
+            def rec_min(it, key=None, _p=picks):
+                v = min(it, key=key); _p.append([int(v[0]), int(v[1])]); return v
+            LM.min = rec_min
             try:
                 sol = [tuple(int(v) for v in x) for x in LM.SolvedMaze.from_targeted_lattice_maze(t).solution]; got = len(sol) - 1
             except ValueError:
                 sol, got = None, None
             except Exception as ex:
                 sol, got = None, type(ex).__name__
+            finally:
+                del LM.min
+            if out is not None and (sol is not None or got is None):
+                # the same query through the model of the solver (the constructor must be exactly one solver call)
+                out.append((r, c, cl, [(s, e, picks, ("found", [list(x) for x in sol]) if sol is not None else ("ValueError", None))], f"ctor{k}"))
             bad = None
             if e in d:
                 if sol is None: bad = f"raised {got or 'ValueError'} although the endpoints are connected (distance {d[e]})"
@@ -342,7 +351,8 @@ def run(ctx):
     jobs += big_jobs(ctx.rng, ctx.quick)
     mutation_sequences(ctx, 60 if ctx.quick else 1500)
     generated_mazes(ctx, 40 if ctx.quick else 600)
-    solved_constructors(ctx, 300 if ctx.quick else 6000)
+    ctor_obs = []
+    solved_constructors(ctx, 300 if ctx.quick else 6000, ctor_obs)
     ctx.count("mazes", len(jobs))
     if ctx.quick:
         results = [solve_all(cl, pairs) for r, c, cl, pairs, _ in jobs]
@@ -350,6 +360,8 @@ def run(ctx):
         import multiprocessing as mp
         with mp.get_context("fork").Pool(16) as pool:
             results = pool.map(_work, [(r, c, cl, pairs) for r, c, cl, pairs, _ in jobs], chunksize=64)
+    for r, c, cl, obs, tag in ctor_obs:          # constructor runs join the model comparison (not re-judged: judged where they ran)
+        jobs.append((r, c, cl, [(obs[0][0], obs[0][1])], tag)); results.append(obs)
     reqs = []
     for (r, c, cl, pairs, tag), obs in zip(jobs, results):
         ctx.count(f"grid={r}x{c}" if r * c <= 9 else "grid>9")
